@@ -491,7 +491,10 @@ func c09Run(r *ev.Run, cs *c09Stack, g *rng.R, caseID string) {
 					// Is it the size? On a connection-oriented transport (nothing is lost on the way) a control of half the
 					// length is sent; if that one goes through and the boundary length then fails once more, the only thing that
 					// differs is the length: some layer, here or at the peer, refused it for size without saying so.
-					if (cs.quic || cs.cfg == "ssh") && L >= 64 {
+					// The same holds for stacks built on the in-process transport alone (no socket, no link emulation): nothing is
+					// lost there either, so a length that never arrives while half of it always does is refused for its size.
+					inProcess := !strings.Contains(cs.cfg, "udp") && !strings.Contains(cs.cfg, "with-tell-transform")
+					if (cs.quic || cs.cfg == "ssh" || inProcess) && L >= 64 {
 						try := func(n int) bool {
 							p := led.mk(g, 0, 1, n, 0)
 							e := led.lookup(p)[len(led.lookup(p))-1]
@@ -508,7 +511,7 @@ func c09Run(r *ev.Run, cs *c09Stack, g *rng.R, caseID string) {
 						}
 						c1, b1, c2, b2 := try(L/2), try(L), try(L/2), try(L)
 						if c1 && c2 && !b1 && !b2 {
-							r.Violate("C09/size-dependent-failure-below-mtu/"+st.Name+"/"+mode, caseID, fmt.Sprintf("%s of %d bytes (<= MTU() = %d) fails every time (%d attempts, last error %v) while %d bytes go through every time over the same connection: it is being refused for its size", mode, L, mu, attempts+2, lastErr, L/2), det(map[string]any{"len": L, "boundary": lc.name}))
+							r.Violate("C09/size-dependent-failure-below-mtu/"+st.Name+"/"+mode, caseID, fmt.Sprintf("%s of %d bytes (<= MTU() = %d) fails every time (%d attempts, last error %v) while %d bytes go through every time over the same path: it is being refused for its size", mode, L, mu, attempts+2, lastErr, L/2), det(map[string]any{"len": L, "boundary": lc.name}))
 						}
 					}
 				}
